@@ -36,40 +36,45 @@ def ungroom_ref(clsname, elem):
     return out
 
 
-# ---- the same reference over the abstract view used by the proofs: direct children as (tag, identity) pairs
+# ---- the same reference over the abstract view used by the proofs: direct children as (tag, identity, grandchild tags)
 def groomed(clsname, kids):
     out = []
     renamed = False
-    for tag, ident in kids:
+    for tag, ident, below in kids:
         if clsname in RENAMES and not renamed and tag == RENAMES[clsname][0]:
             tag = RENAMES[clsname][1]
             renamed = True
-        out.append((tag, ident))
+        out.append((tag, ident, below))
     kept = []
-    for t, i in out:
+    for t, i, b in out:
         if "." not in t:
-            kept.append((t, i))
+            kept.append((t, i, b))
     return kept
 
 
 def ungroomed(clsname, kids):
     out = []
     renamed = False
-    for tag, ident in kids:
+    for tag, ident, below in kids:
         if clsname in RENAMES and not renamed and tag == RENAMES[clsname][1]:
             tag = RENAMES[clsname][0]
             renamed = True
-        out.append((tag, ident))
+        out.append((tag, ident, below))
     return out
 
 
 def kids_of(elem):
-    """direct children as (tag, identity); the harness numbers the children in their text ('t0', 't1', ...)"""
-    return [(c.tag, int(c.text[1:])) for c in elem]
+    """direct children as (tag, identity, tags of its own children); the harness numbers the children in their
+    text ('t0', 't1', ...) or, for a child that is an aggregate, in its first grandchild's text ('g0', ...)"""
+    out = []
+    for c in elem:
+        num = c.text if c.text and c.text[:1] == "t" else (c[0].text if len(c) else c.text)
+        out.append((c.tag, int(num[1:]), [g.tag for g in c]))
+    return out
 
 
 def _kids_model(it, a, kw):
-    return [(c.tag, int(c.label[1:].rstrip("'^"))) for c in a[0].kids]
+    return [(c.tag, int(c.label[1:].rstrip("'^")), [g.tag for g in c.kids]) for c in a[0].kids]
 
 
 kids_of._pyvc_model = _kids_model
